@@ -216,8 +216,8 @@ func needParen(parent, child *Node, right bool, mode RenderMode) bool {
 	if cp == pp && right {
 		return true // left associative
 	}
-	if parent.Op == "|" {
-		// operands of | must be PathExprs
+	if parent.Op == "|" && !(child.Kind == KBin && child.Op == "|" && !right) {
+		// operands of | must be PathExprs (a union on the left is one: a | b | c)
 		return true
 	}
 	return false
